@@ -228,6 +228,26 @@ OP(erase_it) {
   vf_reach(1);
   c.finish();
 }
+// erase(first, last): same contract for the returned iterator, also when the range drains a large set
+OP(erase_range) {
+  Ctx c; c.setup(SS_CLS);
+  unsigned n0 = c.m.count();
+  uint8_t a = nd8(static_cast<uint8_t>(n0)), b = nd8(static_cast<uint8_t>(n0));
+  vf_assume(a <= b);
+  SS::const_iterator first = c.s().begin(), last = c.s().begin();
+  K victims[VF_MAXM]; unsigned nv = 0;
+  for (unsigned i = 0; i < VF_MAXM; ++i) { if (i >= b) break; if (i < a) ++first; else victims[nv++] = *last; ++last; }
+  SS::iterator r = c.s().erase(first, last);
+  for (unsigned i = 0; i < VF_MAXM; ++i) { if (i >= nv) break; c.m.erase(victims[i]); }
+  if (r != c.s().end()) { K x = *r; vf_assert(x < SS_KEYS && c.m.has[x < SS_KEYS ? x : 0], 11004); }
+  unsigned steps = 0;
+  for (SS::const_iterator w = r; w != c.s().end(); ++w) { if (steps > VF_MAXM) break; ++steps; }
+  vf_assert(steps <= c.m.count(), 11004);        // the walk from the returned iterator reaches end() within the remaining elements
+  if (c.large0 && !c.is_large()) vf_reach(2);
+  c.check(); c.no_alloc_if_inline();
+  vf_reach(1);
+  c.finish();
+}
 // the standard erase-while-iterating loop terminates having visited every element
 OP(erase_loop) {
   Ctx c; c.setup(SS_CLS);
@@ -332,11 +352,17 @@ OP(compare) {
   const SS &x = t.a.s(), &y = t.b.s();
   bool eq = true; for (unsigned i = 0; i < SS_KEYS; ++i) if (t.a.m.has[i] != t.b.m.has[i]) eq = false;
   // std::set compares the sorted element sequences lexicographically with operator< on the elements
-  unsigned na = t.a.m.count(), nb = t.b.m.count(); bool lt = false, decided = false;
-  for (unsigned i = 0; i < VF_MAXM; ++i) {
+  // (sorted sequences built in one pass over the key domain: the comparator is a strict order on the key itself)
+  K sa[SS_KEYS], sb[SS_KEYS]; unsigned na = 0, nb = 0;
+  for (unsigned j = 0; j < SS_KEYS; ++j) {
+    unsigned k = SS_CMP == 0 ? j : SS_KEYS - 1 - j;
+    if (t.a.m.has[k]) sa[na++] = static_cast<K>(k);
+    if (t.b.m.has[k]) sb[nb++] = static_cast<K>(k);
+  }
+  bool lt = false, decided = false;
+  for (unsigned i = 0; i < SS_KEYS; ++i) {
     if (i >= na || i >= nb) break;
-    K p = t.a.m.nth(i), q = t.b.m.nth(i);
-    if (p != q && !decided) { lt = p < q; decided = true; }
+    if (sa[i] != sb[i] && !decided) { lt = sa[i] < sb[i]; decided = true; }
   }
   if (!decided) lt = na < nb;
   vf_assert((x == y) == eq && (x != y) == !eq, 4008);
